@@ -41,9 +41,12 @@ def make_state(hist, fan, spied, name='c04_state'):
     sig = e.signal
     if sig == signals.ENTRY_SIGNAL or sig == signals.INIT_SIGNAL or sig == signals.EXIT_SIGNAL:
       return RS.HANDLED
+    if e.signal_name == 'C04_PUB':
+      hist.handled.append(e.payload)
+      return RS.HANDLED
     if e.signal_name == 'EVT':
       hist.handled.append(e.payload)
-      for kind, uid in fan.get(e.payload, ()):
+      for kind, uid in fan.get(e.payload, ()) if not isinstance(e.payload, tuple) else ():
         rec = {'poster': 'handler', 'uid': uid, 'kind': kind, 'call': ds.S.steps, 'ret': None}
         hist.posts.append(rec)
         (chart.post_fifo if kind == 'fifo' else chart.post_lifo)(Event(signal='EVT', payload=uid))
@@ -101,7 +104,7 @@ def check_history(ao, hist, ao_ident, expect_all_dispatched=True):
       denter.setdefault(d['uid'], d['enter'])
   # 1. exactly once
   cnt = collections.Counter(dseq)
-  dup = [u for u, c in cnt.items() if c > 1]
+  dup = [u for u, c in cnt.items() if c > 1 and not isinstance(u, tuple)]   # (tuple ids: timed sources repeat by design, checked by count)
   if dup:
     out.append(('C04/dispatched-twice', 'events %r dispatched more than once' % dup[:5]))
   posted = [p['uid'] for p in hist.posts if p['ret'] is not None]
@@ -112,7 +115,7 @@ def check_history(ao, hist, ao_ident, expect_all_dispatched=True):
       out.append(('C04/posted-never-dispatched' if not pend else 'C04/lost-wakeup-events-left-in-queue',
                   'posted events %r were never dispatched (queue holds %d events, %d tokens) although no thread has work left' % (missing[:6], pend, ds._q.Queue.qsize(ao.locking_deque.locking_queue))))
   known = set(p['uid'] for p in hist.posts)
-  phantom = [u for u in dseq if u not in known]
+  phantom = [u for u in dseq if u not in known and not isinstance(u, tuple)]   # (tuple ids: timed sources, checked by count)
   if phantom:
     out.append(('C04/phantom-dispatch', 'dispatched events %r that were never posted' % phantom[:5]))
   # 2. queue discipline, stated over call/return and dispatch steps only.  F "was waiting during" a post P when F's
